@@ -322,14 +322,76 @@ def load_known_findings():
 # ----------------------------------------------------------------------------------------
 # building real pyflwdir objects from harness networks (lowest public level)
 # ----------------------------------------------------------------------------------------
+# Objects handed to the property harnesses are, with some probability, NOT fresh: they may have answered
+# other queries before (warm caches) and may have reached their network through a mutator (built from a
+# network in which one pit still drained somewhere, then `add_pits`). By C12 this must be unobservable; it
+# makes every property check sensitive to stale or argument-dependent cached state.
+_HIST_RNG = random.Random(int(os.environ.get("VERIF_SEED", "0") or 0) * 7919 + 13)
+HISTORY_STATS = {"fresh": 0, "warm": 0, "via_add_pits": 0}
+
+
+def _warmup(flw, rng, raster):
+    n = flw.size
+    first = int(np.flatnonzero(np.asarray(flw.idxs_ds).ravel() != flw._mv)[0])
+    qs = [lambda: flw.rank, lambda: flw.idxs_seq, lambda: flw.nnodes, lambda: flw.idxs_pit, lambda: flw.idxs_us_main,
+          lambda: flw.stream_order(), lambda: flw.stream_order(type="classic"), lambda: flw.upstream_area(),
+          lambda: flw.area, lambda: flw.distnc, lambda: flw.n_upstream,
+          lambda: flw.stream_order(mask=(np.arange(n) % 2 == 0).reshape(flw.shape)),
+          lambda: flw.main_upstream(uparea=np.arange(n, 0, -1, dtype=np.float64).reshape(flw.shape)),
+          lambda: flw.moving_average(np.ones(flw.shape), n=1), lambda: flw.accuflux(np.ones(flw.shape))]
+    if raster:
+        qs += [lambda: flw.upstream_area("km2"), lambda: flw.upstream_area("ha"), lambda: flw.basins(),
+               lambda: flw.stream_distance(unit="cell"), lambda: flw.ucat_area(np.array([[first]]), unit="km2"),
+               lambda: flw.subbasins_streamorder(min_sto=1), lambda: flw.floodplains(np.zeros(flw.shape)),
+               lambda: flw.subgrid_rivlen(None, unit="cell")]
+    for q in rng.sample(qs, rng.randint(1, 5)):
+        try:
+            q()
+        except Exception:  # noqa: BLE001  (warm-up never decides anything)
+            pass
+
+
+def _with_history(build, ds, dtype, raster, kw):
+    rng = _HIST_RNG
+    u = rng.random()
+    plain = not any(k in kw for k in ("idxs_pit", "idxs_seq", "nnodes", "idxs_outlet")) and kw.get("cache", True)
+    if os.environ.get("PF_NO_HISTORY") == "1" or u < 0.6 or not plain:
+        HISTORY_STATS["fresh"] += 1
+        return build(ds_to_np(ds, dtype))
+    n = len(ds)
+    pits = [i for i in range(n) if ds[i] == i]
+    valid = [i for i in range(n) if ds[i] != n]
+    if u < 0.8 or len(pits) < 2 or len(valid) < 3:
+        flw = build(ds_to_np(ds, dtype))
+        _warmup(flw, rng, raster)
+        HISTORY_STATS["warm"] += 1
+        return flw
+    # reach `ds` through a mutator: pit p still drains to some other valid cell in the initial network
+    p = rng.choice(pits)
+    q = rng.choice([v for v in valid if v != p])
+    ds0 = list(ds)
+    ds0[p] = q
+    try:
+        flw = build(ds_to_np(ds0, dtype))
+        _warmup(flw, rng, raster)
+        flw.add_pits(idxs=np.array([p]))
+        if canon_idx(flw.idxs_ds, n) != list(ds):
+            raise RuntimeError("harness: add_pits did not produce the intended network")
+        HISTORY_STATS["via_add_pits"] += 1
+        return flw
+    except ValueError:
+        HISTORY_STATS["fresh"] += 1
+        return build(ds_to_np(ds, dtype))
+
+
 def mk_raster(ds, shape, dtype=np.int32, ftype="d8", **kw):
     from pyflwdir.pyflwdir import FlwdirRaster
-    return FlwdirRaster(idxs_ds=ds_to_np(ds, dtype), shape=tuple(shape), ftype=ftype, **kw)
+    return _with_history(lambda a: FlwdirRaster(idxs_ds=a, shape=tuple(shape), ftype=ftype, **kw), ds, dtype, True, kw)
 
 
 def mk_vector(ds, dtype=np.int32, **kw):
     from pyflwdir.flwdir import Flwdir
-    return Flwdir(idxs_ds=ds_to_np(ds, dtype), **kw)
+    return _with_history(lambda a: Flwdir(idxs_ds=a, **kw), ds, dtype, False, kw)
 
 
 def gen_raster_net(rng, max_cells=56, loopfree=True):
